@@ -394,6 +394,11 @@ func concExecOnce(t *testing.T, plan Plan, only int, schedSeed uint64) (map[int]
 				c.finishTranscript()
 				trs[c.n] = c.log
 			}
+			if w.sink != nil && only < 0 {
+				if bad, what := w.sink.interleaved(); bad {
+					errStr = "MAIL " + what
+				}
+			}
 			picks = cs.picks
 		})
 	}()
@@ -420,7 +425,12 @@ func c20Exec(t *testing.T, plan Plan, keepTrace bool) *RunResult {
 	for _, p := range picks {
 		dg.line("pick %s", p)
 	}
-	if errStr != "" {
+	if strings.HasPrefix(errStr, "MAIL ") {
+		// a recipient gets a mail mixed with somebody else's
+		v := viol("C20", "mail_interleaved", "default_mailer", nil, strings.TrimPrefix(errStr, "MAIL "))
+		res.Violations = append(res.Violations, v)
+		dg.line("VIOLATION %s :: %s", v.Sig(), v.Detail)
+	} else if errStr != "" {
 		panic("C20 scheduler: " + errStr)
 	}
 	var ids []int
